@@ -18,6 +18,52 @@ import (
 
 type emitCtx struct {
 	bound map[string]string // local variable -> piece (".ptr", ".value")
+	buf   string            // name of the buffer / builder the function writes to
+}
+
+// bufferDecl recognises the declaration of the output buffer: `x := bytes.NewBufferString("")`,
+// `var x strings.Builder`, `var x bytes.Buffer`, `x := &strings.Builder{}`, `x := new(strings.Builder)`.
+func bufferDecl(st ast.Stmt) string {
+	isBufType := func(e ast.Expr) bool {
+		sel, ok := e.(*ast.SelectorExpr)
+		if !ok {
+			return false
+		}
+		x, _ := sel.X.(*ast.Ident)
+		return x != nil && ((x.Name == "strings" && sel.Sel.Name == "Builder") || (x.Name == "bytes" && sel.Sel.Name == "Buffer"))
+	}
+	switch st := st.(type) {
+	case *ast.AssignStmt:
+		if st.Tok != token.DEFINE || len(st.Lhs) != 1 || len(st.Rhs) != 1 {
+			return ""
+		}
+		id, ok := st.Lhs[0].(*ast.Ident)
+		if !ok {
+			return ""
+		}
+		switch r := st.Rhs[0].(type) {
+		case *ast.CallExpr:
+			if sel, ok := r.Fun.(*ast.SelectorExpr); ok && sel.Sel.Name == "NewBufferString" && len(r.Args) == 1 {
+				if lit, ok := r.Args[0].(*ast.BasicLit); ok && lit.Value == `""` {
+					return id.Name
+				}
+			}
+			if fn, ok := r.Fun.(*ast.Ident); ok && fn.Name == "new" && len(r.Args) == 1 && isBufType(r.Args[0]) {
+				return id.Name
+			}
+		case *ast.UnaryExpr:
+			if cl, ok := r.X.(*ast.CompositeLit); ok && r.Op == token.AND && len(cl.Elts) == 0 && isBufType(cl.Type) {
+				return id.Name
+			}
+		}
+	case *ast.DeclStmt:
+		if gd, ok := st.Decl.(*ast.GenDecl); ok && gd.Tok == token.VAR && len(gd.Specs) == 1 {
+			if vs, ok := gd.Specs[0].(*ast.ValueSpec); ok && len(vs.Names) == 1 && len(vs.Values) == 0 && isBufType(vs.Type) {
+				return vs.Names[0].Name
+			}
+		}
+	}
+	return ""
 }
 
 func leanBytes(s string) string {
@@ -82,6 +128,12 @@ func (c *emitCtx) pieces(e ast.Expr) []string {
 		}
 		sel, ok := e.Fun.(*ast.SelectorExpr)
 		if !ok {
+			return nil
+		}
+		if x, ok := sel.X.(*ast.Ident); ok && x.Name == "strconv" && sel.Sel.Name == "Itoa" && len(e.Args) == 1 {
+			if a, ok := e.Args[0].(*ast.Ident); ok && a.Name == "indent" {
+				return []string{".level"}
+			}
 			return nil
 		}
 		if x, ok := sel.X.(*ast.Ident); ok && x.Name == "fmt" && sel.Sel.Name == "Sprintf" && len(e.Args) >= 1 {
@@ -156,7 +208,7 @@ func (c *emitCtx) writes(stmts []ast.Stmt) ([]string, bool) {
 		if !ok {
 			return nil, false
 		}
-		if x, ok := sel.X.(*ast.Ident); !ok || x.Name != "buf" || (sel.Sel.Name != "WriteString" && sel.Sel.Name != "WriteByte") {
+		if x, ok := sel.X.(*ast.Ident); !ok || x.Name != c.buf || (sel.Sel.Name != "WriteString" && sel.Sel.Name != "WriteByte") {
 			return nil, false
 		}
 		ps := c.pieces(call.Args[0])
@@ -168,7 +220,30 @@ func (c *emitCtx) writes(stmts []ast.Stmt) ([]string, bool) {
 	return out, true
 }
 
+// mergeLits joins adjacent literal pieces (".lit [a, b]" ".lit [c]" -> ".lit [a, b, c]"), so that the
+// program does not depend on how the source chunks its writes.
+func mergeLits(ps []string) []string {
+	out := []string{}
+	for _, p := range ps {
+		if strings.HasPrefix(p, ".lit [") && len(out) > 0 && strings.HasPrefix(out[len(out)-1], ".lit [") {
+			a := strings.TrimSuffix(out[len(out)-1], "]")
+			b := strings.TrimPrefix(p, ".lit [")
+			if a == ".lit [" {
+				out[len(out)-1] = a + b
+			} else if b == "]" {
+				out[len(out)-1] = a + "]"
+			} else {
+				out[len(out)-1] = a + ", " + b
+			}
+			continue
+		}
+		out = append(out, p)
+	}
+	return out
+}
+
 func leanPieces(ps []string) string {
+	ps = mergeLits(ps)
 	q := []string{}
 	for _, p := range ps {
 		if strings.HasPrefix(p, ".lit") {
@@ -186,14 +261,11 @@ func translateGEDCOMLine(fn *ast.FuncDecl) []string {
 	unsupported := func(what string) []string { return append(prog, ".unsupported -- "+what) }
 	for i, st := range fn.Body.List {
 		switch st := st.(type) {
-		case *ast.AssignStmt:
-			// buf := bytes.NewBufferString("")
-			if id, ok := st.Lhs[0].(*ast.Ident); ok && id.Name == "buf" && i == 0 {
-				if call, ok := st.Rhs[0].(*ast.CallExpr); ok && len(call.Args) == 1 {
-					if lit, ok := call.Args[0].(*ast.BasicLit); ok && lit.Value == `""` {
-						continue
-					}
-				}
+		case *ast.AssignStmt, *ast.DeclStmt:
+			// the declaration of the output buffer, first statement
+			if name := bufferDecl(st); name != "" && i == 0 {
+				c.buf = name
+				continue
 			}
 			return unsupported("assignment")
 		case *ast.ExprStmt:
@@ -251,7 +323,7 @@ func translateGEDCOMLine(fn *ast.FuncDecl) []string {
 			if len(st.Results) == 1 {
 				if call, ok := st.Results[0].(*ast.CallExpr); ok {
 					if sel, ok := call.Fun.(*ast.SelectorExpr); ok && sel.Sel.Name == "String" {
-						if x, ok := sel.X.(*ast.Ident); ok && x.Name == "buf" && i == len(fn.Body.List)-1 {
+						if x, ok := sel.X.(*ast.Ident); ok && x.Name == c.buf && c.buf != "" && i == len(fn.Body.List)-1 {
 							return prog
 						}
 					}
